@@ -10,7 +10,10 @@ Tie to the implementation:
 * schedule enumeration on REAL threads: `compiler._evaluate` is wrapped (before first
   use) with a baton so that workload B runs to completion, or to its own k-th
   _evaluate entry, inside the j-th _evaluate entry of workload A; workloads are
-  {iterative circular system, plain acyclic workbook, CSE array formula}; threads are
+  {iterative circular system, plain acyclic workbook, CSE array formula (generated:
+  operators or IFERROR/IFNA/IFS - whose lifting depends on the thread's array-formula
+  context - over ranges of constants and formula cells, evaluated, an input rewritten,
+  evaluated again: gen_array)}; threads are
   fresh (never used the library) or warmed up (ran another iterative evaluation
   before).  Result, pass count (ns.iteration_number), number of _evaluate entries
   and every cell's final value must equal the solo run; for iterative x iterative
@@ -32,6 +35,7 @@ import ast
 import hashlib
 import logging
 import os
+import re
 import threading
 from fractions import Fraction as Fr
 
@@ -200,13 +204,13 @@ def check_inventory(ctx, repo):
 class Workload:
     """kind in {'iter','plain','array'}; make() -> fresh compiler; run(comp) -> result"""
 
-    def __init__(self, impl, kind, wb=None, target=None, it=None, tol=None):
+    def __init__(self, impl, kind, wb=None, target=None, it=None, tol=None, spec=None):
         self.impl, self.kind, self.wb, self.target, self.it, self.tol = impl, kind, wb, target, it, tol
+        self.spec = spec or (ARRAY_MULT if kind == 'array' else None)
 
     def describe(self):
         if self.kind == 'array':
-            return dict(kind='array', cells={'A1': 1, 'A2': 2, 'B1': 3, 'B2': 4, 'C1:C2': '{=A1:A2*B1:B2}',
-                                             'D1': '=SUM(C1:C2)+A1'}, evaluate='D1')
+            return dict(self.spec, kind='array')
         return dict(kind=self.kind, workbook=self.wb.describe(), evaluate=base.addr(self.target),
                     iterations=self.it, tolerance=self.tol)
 
@@ -217,9 +221,11 @@ class Workload:
             o = impl.openpyxl.Workbook()
             ws = o.active
             ws.title = base.SHEET
-            ws['A1'], ws['A2'], ws['B1'], ws['B2'] = 1, 2, 3, 4
-            ws['C1'] = ArrayFormula('C1:C2', '=A1:A2*B1:B2')
-            ws['D1'] = '=SUM(C1:C2)+A1'
+            for a, v in self.spec['cells'].items():
+                if ':' in a:
+                    ws[a.split(':')[0]] = ArrayFormula(a, v[1:-1])       # '{=…}' entered over the range a
+                else:
+                    ws[a] = v
             return impl.ExcelCompiler(excel=o)
         if self.kind == 'plain':
             return impl.ExcelCompiler(excel=impl.workbook(self.wb, False))
@@ -227,7 +233,13 @@ class Workload:
 
     def run(self, comp):
         if self.kind == 'array':
-            return comp.evaluate(f'{base.SHEET}!D1')
+            out = []
+            for op in self.spec['ops']:
+                if op[0] == 'evaluate':
+                    out.append(comp.evaluate(f'{base.SHEET}!{op[1]}'))
+                else:
+                    comp.set_value(f'{base.SHEET}!{op[1]}', op[2])
+            return out[0] if len(out) == 1 else tuple(out)
         if self.kind == 'plain':
             return comp.evaluate(base.full(self.target))
         return comp.evaluate(base.full(self.target), iterations=self.it, tolerance=float(self.tol))
@@ -235,6 +247,63 @@ class Workload:
     def cells(self, comp):
         return sorted((a, base.as_q(getattr(c, '_value', c.value)) if not isinstance(c.value, tuple) else repr(c.value))
                       for a, c in comp.cell_map.items())
+
+
+# the array workload of the first rounds: operators only, every precedent a constant
+ARRAY_MULT = dict(cells={'A1': 1, 'A2': 2, 'B1': 3, 'B2': 4, 'C1:C2': '{=A1:A2*B1:B2}', 'D1': '=SUM(C1:C2)+A1'},
+                  ops=[('evaluate', 'D1')])
+
+
+def gen_array(rng):
+    """A CSE array formula over C1:Cn (n = 2, 3) whose arguments are the ranges A, B (and D) of one shape;
+    the cells of those ranges are constants or FORMULA cells over the inputs in column E, so that _evaluate
+    entries of precedents - formulas and constants, in every order - fall inside the array formula's own
+    evaluation.  The formula is an operator expression or applies a function whose lifting depends on the
+    array-formula context (IFERROR, IFNA, IFS) to a range expression and a scalar or a range; G1 sums the
+    members.  Operations: evaluate(G1), evaluate(C1:Cn), then - two times of three - set_value of an input
+    and both evaluations again (the array formula is recalculated with part of its precedents dirty)."""
+    n = rng.choice([2, 3])
+    cells = {}
+    for i in range(1, n + 1):
+        cells[f'E{i}'] = rng.choice([1, 2, 3, 4, 6, 8])
+
+    def column(c, p_formula, consts):
+        for i in range(1, n + 1):
+            if rng.random() < p_formula:
+                cells[f'{c}{i}'] = rng.choice([f'=E{i}-2', f'=E{i}*2', f'=E{i}-E1', f'=4-E{i}', f'=E{i}+E{n}'])
+            else:
+                cells[f'{c}{i}'] = rng.choice(consts)
+    column('A', rng.choice([0, 0, 0.5, 1]), [1, 2, 3, 6, 9, 12])
+    column('B', rng.choice([0, 0.5, 1]), [0, 0, 1, 2, 3, 4])
+    rA, rB, rD = f'A1:A{n}', f'B1:B{n}', f'D1:D{n}'
+    x, y = (rA, rB) if rng.random() < 0.5 else (rB, rA)
+    fallback = rng.choice(['-1', rD, rD])
+    if fallback == rD:
+        column('D', rng.choice([0, 0.5, 1]), [-1, -2, -3, 10, 20])
+    kind = rng.choice(['iferror', 'iferror', 'ifna', 'ifs', 'ifs', 'op'])
+    if kind == 'iferror':
+        f = f'=IFERROR({x}/{y},{fallback})'
+    elif kind == 'ifna':
+        for i in range(1, n + 1):
+            if rng.random() < 0.5:
+                cells[f'A{i}'] = rng.choice(['=NA()', f'=IF(E{i}>2,NA(),E{i})'])
+        f = f'=IFNA({rA},{fallback})' if rng.random() < 0.5 else f'=IFNA({rA}+{rB},{fallback})'
+    elif kind == 'ifs':
+        f = f'=IFS({y}>1,{x},TRUE,{fallback})' if rng.random() < 0.5 else f'=IFS({y}>1,{x}*2,{y}<=1,{fallback})'
+    else:
+        f = f'={x}*{y}+{fallback}'
+    cells[f'C1:C{n}'] = '{' + f + '}'
+    cells['G1'] = f'=SUM(C1:C{n})+A1'
+    ops = [('evaluate', 'G1'), ('evaluate', f'C1:C{n}')]
+    if rng.random() < 2 / 3:
+        used = {a for a in cells if a[0] in 'ABD' and a[0] + '1:' in f} | {'A1'}      # what G1 depends on
+        read = sorted({m for a in used if isinstance(cells[a], str) for m in re.findall(r'E\d', cells[a])})
+        inputs = read or sorted(a for a in used if not isinstance(cells[a], str))
+        if inputs:
+            a = rng.choice(inputs)
+            ops += [('set_value', a, rng.choice([v for v in (0, 2, 3, 5, 7) if v != cells[a]])),
+                    ('evaluate', 'G1'), ('evaluate', f'C1:C{n}')]
+    return dict(cells=cells, ops=ops)
 
 
 class Baton:
@@ -455,19 +524,21 @@ def gen_workloads(ctx, impl):
     out = []
     while len(out) < ctx.n(40, 120):
         r = rng.random()
-        if r < 0.6:
+        if r < 0.5:
             wb = base.gen_cyclic(rng, True)
             if wb.ranges:
                 continue
             formulas = [i for i, c in enumerate(wb.cells) if c['formula']]
             out.append(Workload(impl, 'iter', wb, rng.choice(formulas), rng.choice(base.ITS),
                                 rng.choice(base.TOLS)))
-        elif r < 0.85:
+        elif r < 0.72:
             wb = base.gen_acyclic(rng)
             formulas = [i for i, c in enumerate(wb.cells) if c['formula']]
             out.append(Workload(impl, 'plain', wb, rng.choice(formulas)))
-        else:
+        elif r < 0.76:
             out.append(Workload(impl, 'array'))
+        else:
+            out.append(Workload(impl, 'array', spec=gen_array(rng)))
     return out
 
 
@@ -479,7 +550,9 @@ def run(ctx):
     rng = ctx.rng
     ctx.extra['rule'] = (
         "pairs of workloads from {iterative contracting circular system (C06 generator, no ranges), plain acyclic "
-        "workbook on a non-iterative compiler, CSE array formula} on two real threads; B runs to completion or to "
+        "workbook on a non-iterative compiler, CSE array formula - an operator expression or IFERROR/IFNA/IFS over "
+        "ranges whose cells are constants or formula cells, evaluated, an input rewritten, evaluated again -} on two "
+        "real threads; B runs to completion or to "
         "its own k-th _evaluate entry inside the j-th _evaluate entry of A, (j, k) sampled (thorough: all) up to the "
         "workload lengths; threads fresh or warmed up by another iterative evaluation with other settings; a case is "
         "a distinct (workload A, workload B, j, k, fresh/warm); plus every public operation on a brand-new thread "
